@@ -152,8 +152,25 @@ func unparen(e ast.Expr) ast.Expr {
 // recvValue evaluates the receiver, following embedded-field promotions and
 // taking the address implicitly when the method has a pointer receiver.
 func (x *Exec) recvValue(sel *ast.SelectorExpr, s *types.Selection, st *State) Value {
-	base := x.expr(sel.X, st)
 	idx := s.Index()
+	if len(idx) == 1 {
+		// pointer-receiver method on a local struct that lives in the heap:
+		// the receiver is the address of its cell
+		if id, ok := unparen(sel.X).(*ast.Ident); ok {
+			if o, ok := x.info.ObjectOf(id).(*types.Var); ok {
+				if bx, isBx := st.vars[o].(Bx); isBx {
+					if fn, ok := s.Obj().(*types.Func); ok {
+						if sig, ok := fn.Type().(*types.Signature); ok && sig.Recv() != nil {
+							if _, isPtr := sig.Recv().Type().Underlying().(*types.Pointer); isPtr {
+								return Sc{bx.P}
+							}
+						}
+					}
+				}
+			}
+		}
+	}
+	base := x.expr(sel.X, st)
 	if len(idx) > 1 {
 		// promoted through embedded fields
 		baseT := x.info.TypeOf(sel.X)
@@ -505,6 +522,19 @@ func (x *Exec) callWith(e *ast.CallExpr, st *State, recvVal Value, args []Value)
 				}
 			}
 		}
+		// a local variable holding a function literal of this unit: its body
+		// is executed in place (captured variables are the unit's own)
+		if id, ok := unparen(e.Fun).(*ast.Ident); ok {
+			if v, ok := x.info.ObjectOf(id).(*types.Var); ok {
+				if fv, ok := st.vars[v].(Fv); ok {
+					if flit, ok := fv.Lit.(*ast.FuncLit); ok && flit != nil {
+						if res, ok := x.inlineClosure(e, st, flit, args); ok {
+							return res
+						}
+					}
+				}
+			}
+		}
 		return x.abstractCall(e, st, "call through function value "+x.src(e.Fun), resT, args, recvVal)
 	}
 	key := funcKey(fn)
@@ -539,6 +569,19 @@ func (x *Exec) callWith(e *ast.CallExpr, st *State, recvVal Value, args []Value)
 	case "errors.New":
 		return Sc{x.newError(st, nil)}
 	case "errors.Join":
+		if e.Ellipsis.IsValid() && len(args) == 1 {
+			// errors.Join(errs...): nil exactly when every element is nil
+			if sl, ok := args[0].(Sl); ok {
+				if comps := x.slComp(st, sl); len(comps) == 1 && comps[0].S.Kind == SArr && comps[0].S.Elem.Eq(IntSort) {
+					r := x.newError(st, nil)
+					k := Var(fmt.Sprintf("k!%d", x.nextEpoch()), x.ar.idxSort())
+					in := And(x.ar.le(x.ar.idxC(0), k, idxII), x.ar.lt(k, sl.Len, idxII))
+					el := Select(comps[0], x.idxAdd(sl.Off, k))
+					allNil := Forall([]*Term{k}, Implies(in, Eq(el, IntC(0))), []*Term{el})
+					return Sc{Ite(allNil, IntC(0), r)}
+				}
+			}
+		}
 		// non-nil when some operand is non-nil; errors.Is sees every operand,
 		// the model keeps the first one
 		var first *Term
